@@ -31,7 +31,10 @@ O == R.obs
 \* the driver ran a case of the generated space and could build provider and gun
 \* (a file is played once: acq = number of its entries, every entry gets its own line)
 WellFormed   == l = 0 \/ /\ R.err = ""
-                          /\ IF IsFile(R) THEN R.c \in Files /\ R.acq = Len(R.c.entries) /\ R.k \in DOMAIN R.c.entries
+                          /\ IF IsFile(R) THEN /\ R.k \in DOMAIN R.c.entries
+                                               /\ IF "n" \in DOMAIN R.c      \* re-used entries: n instances x rounds shots
+                                                  THEN R.c \in ReuseFiles /\ R.acq = R.c.n * R.c.rounds
+                                                  ELSE R.c \in Files /\ R.acq = Len(R.c.entries)
                                           ELSE C \in Cases /\ R.acq = 1
 \* exactly one request reached a server
 TArrived     == l = 0 \/ IF TunnelRefused(C) THEN TunnelRefusedOK(C, O, R.samples) ELSE Arrived(C, O)
